@@ -120,10 +120,12 @@ def typeItems (loc : Bool) (t : SymType) : List Item :=
   | .vec r b => [Item.alias t.name (.vec (boxIf b (.named r)))]
   | .terminal => []
 
-/-- `get_action_args` -/
-def actionParams (c : Choice) : List (String × Ty) :=
+/-- `get_action_args`. The accumulator of a Vec action is declared `mut` — decided by its TYPE (the field refers to
+the rule itself), whatever it is called; shown as `mut name` in the parameter's name. -/
+def actionParams (t : SymType) (c : Choice) : List (String × Ty) :=
+  let isVec := match t.kind with | .vec _ _ => true | _ => false
   match c.kind with
-  | .struct _ fs => fs.map (fun f => (f.name, .named f.refType))
+  | .struct _ fs => fs.map (fun f => (if isVec && t.name == f.refType then "mut " ++ f.name else f.name, .named f.refType))
   | .ref r _ => [(toSnake r, .named r)]
   | _ => []
 
@@ -132,7 +134,7 @@ def actionName (nt : String) (c : Choice) : String := toSnake (nt ++ "_" ++ c.na
 
 /-- `nonterminal_actions` (signatures) -/
 def actionItems (t : SymType) : List Item :=
-  t.choices.map (fun c => Item.fn (actionName t.name c) (actionParams c) (.named t.name))
+  t.choices.map (fun c => Item.fn (actionName t.name c) (actionParams t c) (.named t.name))
 
 /-- the argument the reduce arm passes for a right-nulled content symbol (`params` closure in base.rs) -/
 def nulledArg (fx : Fixes) (ts : List SymType) (sym : String) : Arg :=
